@@ -4,6 +4,7 @@
 #  (2) the demonstration fails with the change and passes without it
 # Writes <worktree>/seeded/<X>/verify.log and prints a one-line verdict.
 set -u
+exec </dev/null
 WT="$1"; X="$2"; D="$WT/seeded/$X"
 export CARGO_NET_OFFLINE=true
 LOG="$D/verify.log"; : > "$LOG"
